@@ -2,7 +2,12 @@
 import streams
 from checks._propcommon import dumps_of, standard_programs
 
-THEOREMS = ["LNN.C05_monotone", "LNN.C05_aggregate_tightens"]
+THEOREMS = ["LNN.C05_monotone",
+            "LNN.C05_aggregate_tightens",
+            "LNN.C05_steps",
+            "LNN.C05_infer",
+            "LNN.C05_call",
+            "LNN.C05_pass"]
 MODULES = ["LnnVerif.Props.C05"]
 FACETS = {"bounds"}
 
